@@ -156,7 +156,7 @@ func (c *Canonicalizer) CanonicalizeFunction(fn *ssa.Function) string {
 	}
 
 	c.writeFunctionSignature(fn)
-	c.reconstructBlockInstructions(fn)
+	c.reconstructBlockInstructions(sortedBlocks)
 	for _, block := range sortedBlocks {
 		if _, exists := c.blockMap[block]; exists {
 			c.processBlock(block)
@@ -216,7 +216,11 @@ func (c *Canonicalizer) normalizeInductionVariablesRecursive(loops []*loop.Loop,
 	}
 }
 
-func (c *Canonicalizer) reconstructBlockInstructions(fn *ssa.Function) {
+// reconstructBlockInstructions walks the blocks in CANONICAL order (not go/ssa's index order, which
+// follows the source order of branches) so that instructions moved into another block, e.g.
+// hoisted calls collected in a pre-header, are appended in an order that does not depend on how
+// the source arranged its then/else arms.
+func (c *Canonicalizer) reconstructBlockInstructions(blocks []*ssa.BasicBlock) {
 	c.effectiveInstrs = make(map[*ssa.BasicBlock][]ssa.Instruction)
 
 	// Separate instruction lists to enforce safe ordering:
@@ -231,7 +235,7 @@ func (c *Canonicalizer) reconstructBlockInstructions(fn *ssa.Function) {
 	tails := make(map[*ssa.BasicBlock][]ssa.Instruction)
 	terminators := make(map[*ssa.BasicBlock]ssa.Instruction)
 
-	for _, b := range fn.Blocks {
+	for _, b := range blocks {
 		for _, instr := range b.Instrs {
 			if c.VirtualizedInstrs[instr] {
 				continue
@@ -265,7 +269,7 @@ func (c *Canonicalizer) reconstructBlockInstructions(fn *ssa.Function) {
 		}
 	}
 
-	for _, b := range fn.Blocks {
+	for _, b := range blocks {
 		var combined []ssa.Instruction
 		combined = append(combined, phis[b]...)
 		combined = append(combined, heads[b]...)
